@@ -69,6 +69,12 @@ func getSigners() map[string][2]crypto.Signer {
 		f1, _ := ecdsa.GenerateKey(elliptic.P384(), rand.Reader)
 		f2, _ := ecdsa.GenerateKey(elliptic.P384(), rand.Reader)
 		signers["ecdsa384"] = [2]crypto.Signer{f1, f2}
+		g1, _ := ecdsa.GenerateKey(elliptic.P521(), rand.Reader)
+		g2, _ := ecdsa.GenerateKey(elliptic.P521(), rand.Reader)
+		signers["ecdsa521"] = [2]crypto.Signer{g1, g2}
+		h1, _ := ecdsa.GenerateKey(elliptic.P224(), rand.Reader)
+		h2, _ := ecdsa.GenerateKey(elliptic.P224(), rand.Reader)
+		signers["ecdsa224"] = [2]crypto.Signer{h1, h2}
 	})
 	return signers
 }
